@@ -10,25 +10,25 @@ import (
 
 // reference-side contracts for the exact integer value and for the (trusted, correctly rounded)
 // float value of a literal; natively they are computed with the standard library.
-func verifRefExactInt(lit []byte) (ok, neg, big bool, mag uint64) {
+func verifRefExactInt(lit []byte) (ok, neg, fitsI64Pos, fitsI64Neg, fitsU64 bool, mag uint64) {
 	s := string(lit)
 	if len(s) > 0 && (s[0] == '-' || s[0] == '+') {
 		neg = s[0] == '-'
 		s = s[1:]
 	}
 	if len(s) == 0 {
-		return false, neg, false, 0
+		return false, neg, false, false, false, 0
 	}
 	for i := 0; i < len(s); i++ {
 		if s[i] < '0' || s[i] > '9' {
-			return false, neg, false, 0
+			return false, neg, false, false, false, 0
 		}
 	}
 	u, err := strconv.ParseUint(s, 10, 64)
 	if err != nil {
-		return true, neg, true, 0
+		return true, neg, false, false, false, 0
 	}
-	return true, neg, false, u
+	return true, neg, u < 1<<63, u <= 1<<63, true, u
 }
 
 func verifRefPF(lit []byte) (bits uint64, overflow bool) {
@@ -202,13 +202,13 @@ func verifHarness_P2_ParseNumber() {
 		}
 		return
 	}
-	_, neg, big, mag := verifRefExactInt(lit)
+	_, neg, fitsPos, fitsNeg, fitsU64, mag := verifRefExactInt(lit)
 	switch {
-	case !neg && !big && mag < 1<<63:
+	case !neg && fitsPos:
 		verifAssert(tag == uint64(TagInteger)<<JSONTAGOFFSET && val == mag, "integer literal that fits int64: int64 with the exact value")
-	case neg && !big && mag <= 1<<63:
+	case neg && fitsNeg:
 		verifAssert(tag == uint64(TagInteger)<<JSONTAGOFFSET && val == -mag, "negative integer literal that fits int64: int64 with the exact value")
-	case !neg && !big:
+	case !neg && fitsU64:
 		verifAssert(tag == uint64(TagUint)<<JSONTAGOFFSET && val == mag, "non-negative integer literal beyond int64 that fits uint64: uint64 with the exact value")
 	default:
 		if overflow {
